@@ -1,34 +1,512 @@
 package main
 
-// Models of library functions and API-level values (hash objects, readers,
-// interfaces). Filled in incrementally.
+// Models of library functions and API-level values: strings, interfaces,
+// SHA-512 digest objects, entropy readers, errors.
 
 import (
+	"fmt"
 	"go/types"
+	"strings"
 
 	"golang.org/x/tools/go/ssa"
 )
 
+const SBytes Sort = "Bytes"
+
+func init() {
+	TS.sorts["Bytes"] = true
+}
+
+func bnil() *Term { return UF("bnil", SBytes) }
+
+func bcat(a, b *Term) *Term {
+	if a.op == OUF && a.name == "bnil" {
+		return b
+	}
+	if b.op == OUF && b.name == "bnil" {
+		return a
+	}
+	// right-nested canonical form
+	if a.op == OUF && a.name == "bcat" {
+		return bcat(a.args[0], bcat(a.args[1], b))
+	}
+	return UF("bcat", SBytes, a, b)
+}
+
+// bytesTerm gives the abstract byte sequence denoted by a slice, array value or string.
+func (en *Engine) bytesTerm(st *State, mem map[*Region]Cell, v Value) Value {
+	switch x := v.(type) {
+	case StringV:
+		if x.Const != nil {
+			return en.constBytes([]byte(*x.Const))
+		}
+		return UF("bsub", SBytes, x.Arr, ConstI(0), x.Len)
+	case SliceV:
+		if x.R == nil {
+			return bnil()
+		}
+		saved := st.mem
+		st.mem = mem
+		defer func() { st.mem = saved }()
+		c, _ := en.loadPath(st, en.regionCell(st, x.R), x.Path, x.R.typ)
+		switch cc := c.(type) {
+		case *SymArrCell:
+			return UF("bsub", SBytes, cc.Arr, x.Off, x.Len)
+		case *ArrCell:
+			off, ok1 := x.Off.ConstInt()
+			n, ok2 := x.Len.ConstInt()
+			if !ok1 || !ok2 {
+				fail("bytesOf: symbolic window into a concrete array")
+			}
+			var elems []*Term
+			for i := off; i < off+n; i++ {
+				t, ok := cc.Elems[i].(*Term)
+				if !ok {
+					fail("bytesOf: non-scalar element")
+				}
+				elems = append(elems, t)
+			}
+			return en.elemsBytes(elems)
+		}
+		fail("bytesOf: unsupported backing store %T", c)
+	case AggV:
+		ac, ok := x.C.(*ArrCell)
+		if !ok {
+			fail("bytesOf: unsupported aggregate")
+		}
+		var elems []*Term
+		for _, e := range ac.Elems {
+			elems = append(elems, e.(*Term))
+		}
+		return en.elemsBytes(elems)
+	case PtrV:
+		saved := st.mem
+		st.mem = mem
+		defer func() { st.mem = saved }()
+		return en.bytesTerm(st, mem, en.load(st, x, nil))
+	}
+	fail("bytesOf: unsupported value %T", v)
+	return nil
+}
+
+func (en *Engine) constBytes(b []byte) *Term {
+	if len(b) == 0 {
+		return bnil()
+	}
+	return UF(fmt.Sprintf("bconst_%x", b), SBytes)
+}
+
+func (en *Engine) elemsBytes(elems []*Term) *Term {
+	if len(elems) == 0 {
+		return bnil()
+	}
+	allConst := true
+	for _, e := range elems {
+		if e.op != OConst {
+			allConst = false
+		}
+	}
+	if allConst {
+		b := make([]byte, len(elems))
+		for i, e := range elems {
+			b[i] = byte(e.k.Int64())
+		}
+		return en.constBytes(b)
+	}
+	// consecutive selects of one array
+	if elems[0].op == OSelect {
+		arr := elems[0].args[0]
+		base := elems[0].args[1]
+		ok := true
+		for i, e := range elems {
+			if e.op != OSelect || e.args[0] != arr || !Eq(e.args[1], Add(base, ConstI(int64(i)))).IsTrue() {
+				ok = false
+				break
+			}
+		}
+		if ok {
+			return UF("bsub", SBytes, arr, base, ConstI(int64(len(elems))))
+		}
+	}
+	r := bnil()
+	for i := len(elems) - 1; i >= 0; i-- {
+		r = UF("bcons", SBytes, elems[i], r)
+	}
+	return r
+}
+
+// ---------- parameters of API types ----------
+
+func (en *Engine) makeParamAPI(st *State, name string, t types.Type, facts *[]*Term) Value {
+	switch u := t.Underlying().(type) {
+	case *types.Basic:
+		if u.Kind() == types.String {
+			return freshString(name, facts)
+		}
+	case *types.Interface:
+		return freshIface(name, facts, false)
+	case *types.Slice:
+		return en.makeSliceOfSlices(st, name, t, u, facts)
+	}
+	fail("unsupported parameter type %s for %s", t, name)
+	return nil
+}
+
+func freshString(name string, facts *[]*Term) StringV {
+	l := FreshVar(name+".len", SInt)
+	*facts = append(*facts, Le(ConstI(0), l), Le(l, Const(pow2(wordBits-2))))
+	return StringV{Arr: FreshVar(name+".str", SArr), Len: l}
+}
+
+func freshIface(name string, facts *[]*Term, nonNil bool) IfaceV {
+	s := FreshVar(name+".iface", SInt)
+	lo := int64(0)
+	if nonNil {
+		lo = 1
+	}
+	*facts = append(*facts, Le(ConstI(lo), s))
+	return IfaceV{Sym: s}
+}
+
+// ---------- type assertions on symbolic interfaces ----------
+
+func (en *Engine) symTypeAssert(st *State, f *Frame, x *ssa.TypeAssert, iv IfaceV) []*State {
+	if _, isIface := x.AssertedType.Underlying().(*types.Interface); isIface {
+		fail("assertion of a symbolic interface to an interface type")
+	}
+	pos := posOf(en, x.Pos())
+	// success branch
+	en.flushSide(st)
+	other := st.clone()
+	var facts []*Term
+	val := en.freshOfType(st, x.AssertedType, f.fn.Name()+".dyn", &facts)
+	for _, fc := range facts {
+		st.assume(fc)
+	}
+	st.assume(Le(ConstI(1), iv.Sym))
+	tag := UF("dyntype$"+sanitize(x.AssertedType.String()), SBool, iv.Sym)
+	st.assume(tag)
+	refined := IfaceV{Dyn: x.AssertedType, V: val, Sym: iv.Sym}
+	f.env[x.X] = refined
+	st.trace = append(st.trace, pos+": dynamic type is "+x.AssertedType.String())
+	if x.CommaOk {
+		f.env[x] = TupleV{val, True()}
+	} else {
+		f.env[x] = val
+	}
+	// failure branch
+	of := other.top()
+	other.assume(Not(tag))
+	other.trace = append(other.trace, pos+": dynamic type is not "+x.AssertedType.String())
+	if x.CommaOk {
+		of.env[x] = TupleV{zeroValue(x.AssertedType), False()}
+	} else {
+		other.done, other.panicked = true, true
+		other.panicMsg = "failed type assertion at " + pos
+	}
+	return []*State{other}
+}
+
+// freshOfType creates an arbitrary value of type t (pointers point to fresh regions).
+func (en *Engine) freshOfType(st *State, t types.Type, name string, facts *[]*Term) Value {
+	switch u := t.Underlying().(type) {
+	case *types.Pointer:
+		r := en.newRegion(name, u.Elem(), "param")
+		st.mem[r] = en.freshCellAPI(u.Elem(), name, facts)
+		return PtrV{R: r}
+	case *types.Slice:
+		if _, isB := u.Elem().Underlying().(*types.Basic); isB {
+			r := en.newRegion(name, t, "param")
+			ln := FreshVar(name+".len", SInt)
+			cp := FreshVar(name+".cap", SInt)
+			*facts = append(*facts, Le(ConstI(0), ln), Le(ln, cp), Le(cp, Const(pow2(wordBits-2))))
+			st.mem[r] = &SymArrCell{Arr: FreshVar(name+".arr", SArr), N: cp, Elem: u.Elem()}
+			return SliceV{R: r, Off: ConstI(0), Len: ln, Cap: cp, Elem: u.Elem()}
+		}
+	case *types.Basic:
+		if u.Kind() == types.String {
+			return freshString(name, facts)
+		}
+		return freshScalar(t, name, facts)
+	case *types.Interface:
+		return freshIface(name, facts, false)
+	}
+	fail("cannot create an arbitrary value of type %s", t)
+	return nil
+}
+
+func (en *Engine) freshCellAPI(t types.Type, prefix string, facts *[]*Term) Cell {
+	return freshCell(t, prefix, facts)
+}
+
+// ---------- interface method calls ----------
+
+func (en *Engine) execInvoke(st *State, f *Frame, x *ssa.Call, recv Value, m *types.Func, args []Value, pos string) []*State {
+	iv, ok := recv.(IfaceV)
+	if !ok {
+		fail("invoke on %T at %s", recv, pos)
+	}
+	if h, ok := iv.V.(HashV); ok {
+		return en.hashMethod(st, f, x, h, m.Name(), args, pos)
+	}
+	if iv.Dyn != nil {
+		fn := en.prog.LookupMethod(iv.Dyn, m.Pkg(), m.Name())
+		if fn == nil {
+			fail("no method %s on %s", m.Name(), iv.Dyn)
+		}
+		return en.callFunction(st, f, x, fn, nil, append([]Value{iv.V}, args...), pos)
+	}
+	if iv.Sym == nil {
+		en.require(st, "nil", False(), "method call on nil interface", pos)
+		st.done, st.infeasible = true, true
+		return nil
+	}
+	// unknown dynamic type: the method is an arbitrary function of the receiver
+	en.require(st, "nil", Le(ConstI(1), iv.Sym), "method call on a possibly nil interface value", pos)
+	sig := m.Type().(*types.Signature)
+	switch sig.Results().Len() {
+	case 0:
+		f.env[x] = nil
+	case 1:
+		rt := sig.Results().At(0).Type()
+		if lo, hi, ok := typeRange(rt); ok {
+			v := UF("method$"+m.Name(), SInt, iv.Sym)
+			if !st.typed[v.id] {
+				st.typed[v.id] = true
+				st.assume(Le(Const(lo), v))
+				st.assume(Le(v, Const(hi)))
+			}
+			f.env[x] = v
+		} else {
+			f.env[x] = en.freshValue(st, rt, "method."+m.Name())
+		}
+	default:
+		fail("invoke of %s on an unknown dynamic type at %s", m.Name(), pos)
+	}
+	en.externCalls[fmt.Sprintf("%s: dynamic call %s on caller-supplied interface", en.curFunc, m.Name())] = true
+	return nil
+}
+
+func (en *Engine) hashState(st *State, h HashV) *Term {
+	return st.mem[h.Cell].(*Term)
+}
+
+func (en *Engine) hashMethod(st *State, f *Frame, x *ssa.Call, h HashV, name string, args []Value, pos string) []*State {
+	switch name {
+	case "Write":
+		b := en.bytesTerm(st, st.mem, args[0]).(*Term)
+		st.mem[h.Cell] = bcat(en.hashState(st, h), b)
+		ln := ConstI(0)
+		if s, ok := args[0].(SliceV); ok && s.R != nil {
+			ln = s.Len
+		}
+		f.env[x] = TupleV{ln, IfaceV{}}
+	case "Reset":
+		st.mem[h.Cell] = bnil()
+		f.env[x] = nil
+	case "Sum":
+		d := UF("sha512", SArr, en.hashState(st, h))
+		dst, ok := args[0].(SliceV)
+		if !ok {
+			fail("Sum argument %T", args[0])
+		}
+		var out SliceV
+		if dst.R == nil {
+			out = en.makeSlice(st, f.fn.Name()+".digest", types.Typ[types.Uint8], ConstI(64), ConstI(64))
+		} else {
+			room := Le(Add(dst.Len, ConstI(64)), dst.Cap)
+			if !(room.IsTrue() || en.intervalHolds(st, room)) {
+				fail("hash.Sum into a slice whose spare capacity is not known to hold 64 bytes at %s", pos)
+			}
+			out = SliceV{R: dst.R, Path: dst.Path, Off: dst.Off, Len: Add(dst.Len, ConstI(64)), Cap: dst.Cap, Elem: dst.Elem}
+		}
+		base := Sub(out.Len, ConstI(64))
+		for i := int64(0); i < 64; i++ {
+			b := Select(d, ConstI(i))
+			if !st.typed[b.id] {
+				st.typed[b.id] = true
+				st.assume(Le(ConstI(0), b))
+				st.assume(Le(b, ConstI(255)))
+			}
+			p := en.sliceElemPtr(out, Add(base, ConstI(i)))
+			en.noteWrite(st, p, pos)
+			en.store(st, p, b)
+		}
+		f.env[x] = out
+	case "Size":
+		f.env[x] = ConstI(64)
+	case "BlockSize":
+		f.env[x] = ConstI(128)
+	default:
+		fail("unsupported hash method %s", name)
+	}
+	return nil
+}
+
+// ---------- library intrinsics ----------
+
+func (en *Engine) contentEq(st *State, a, b SliceV) *Term {
+	if a.R == nil || b.R == nil {
+		la, lb := en.sliceLen(a), en.sliceLen(b)
+		return Eq(la, lb)
+	}
+	lenEq := Eq(a.Len, b.Len)
+	if n, ok := a.Len.ConstInt(); ok && n <= 128 {
+		cs := []*Term{lenEq}
+		for i := int64(0); i < n; i++ {
+			x := en.load(st, en.sliceElemPtr(a, ConstI(i)), a.Elem).(*Term)
+			// b's length may differ; element reads are only meaningful under lenEq
+			if m, ok := b.Len.ConstInt(); ok && i >= m {
+				return False()
+			}
+			y := en.load(st, en.sliceElemPtr(b, ConstI(i)), b.Elem).(*Term)
+			cs = append(cs, Eq(x, y))
+		}
+		return And(cs...)
+	}
+	if n, ok := b.Len.ConstInt(); ok && n <= 128 {
+		return en.contentEq(st, b, a)
+	}
+	ba := en.bytesTerm(st, st.mem, a).(*Term)
+	bb := en.bytesTerm(st, st.mem, b).(*Term)
+	return And(lenEq, Eq(ba, bb))
+}
+
 func (en *Engine) intrinsicAPI(st *State, f *Frame, x *ssa.Call, fn *ssa.Function, name string, args []Value, pos string) ([]*State, bool) {
+	switch name {
+	case "crypto/sha512.New":
+		r := en.newRegion("sha512.digest", types.Typ[types.Int], "heap")
+		st.mem[r] = bnil()
+		f.env[x] = IfaceV{Dyn: fn.Signature.Results().At(0).Type(), V: HashV{Cell: r}}
+		return nil, true
+	case "errors.New", "fmt.Errorf":
+		en.regionSeq++
+		f.env[x] = IfaceV{Dyn: types.Universe.Lookup("error").Type(), V: OpaqueV{What: "error value"}, Sym: ConstI(int64(1000000 + en.regionSeq))}
+		return nil, true
+	case "strconv.Itoa":
+		f.env[x] = OpaqueV{What: "string"}
+		return nil, true
+	case "bytes.Equal":
+		f.env[x] = en.contentEq(st, args[0].(SliceV), args[1].(SliceV))
+		en.externCalls["bytes.Equal (variable time)"] = true
+		return nil, true
+	case "crypto/subtle.ConstantTimeCompare":
+		f.env[x] = Ite(en.contentEq(st, args[0].(SliceV), args[1].(SliceV)), ConstI(1), ConstI(0))
+		return nil, true
+	case "crypto/subtle.ConstantTimeCopy":
+		v := args[0].(*Term)
+		dst, src := args[1].(SliceV), args[2].(SliceV)
+		en.require(st, "panic", Eq(en.sliceLen(dst), en.sliceLen(src)), "subtle.ConstantTimeCopy: slices have equal length", pos)
+		en.require(st, "pre@subtle.ConstantTimeCopy", Or(Eq(v, ConstI(0)), Eq(v, ConstI(1))), "subtle.ConstantTimeCopy: v is 0 or 1 (behaviour undefined otherwise)", pos)
+		n, ok := dst.Len.ConstInt()
+		if !ok {
+			fail("ConstantTimeCopy with symbolic length")
+		}
+		vals := make([]*Term, n)
+		for i := int64(0); i < n; i++ {
+			o := en.load(st, en.sliceElemPtr(dst, ConstI(i)), dst.Elem).(*Term)
+			s := en.load(st, en.sliceElemPtr(src, ConstI(i)), src.Elem).(*Term)
+			vals[i] = Ite(Eq(v, ConstI(1)), s, o)
+		}
+		for i := int64(0); i < n; i++ {
+			p := en.sliceElemPtr(dst, ConstI(i))
+			en.noteWrite(st, p, pos)
+			en.store(st, p, vals[i])
+		}
+		f.env[x] = nil
+		return nil, true
+	case "io.ReadFull":
+		return en.readFull(st, f, x, args, pos), true
+	case "golang.org/x/crypto/curve25519.ScalarMult":
+		dst, in, base := args[0].(PtrV), args[1].(PtrV), args[2].(PtrV)
+		le := func(p PtrV) *Term {
+			a := en.load(st, p, nil).(AggV).C.(*ArrCell)
+			var ts []*Term
+			for i, e := range a.Elems {
+				ts = append(ts, MulC(e.(*Term), pow2(8*i)))
+			}
+			return Add(append(ts, ConstI(0))...)
+		}
+		res := UF("x25519", SInt, le(in), le(base))
+		if !st.typed[res.id] {
+			st.typed[res.id] = true
+			st.assume(Le(ConstI(0), res))
+			st.assume(Lt(res, Const(pow2(256))))
+		}
+		var es []Cell
+		for i := 0; i < 32; i++ {
+			es = append(es, Mod(Div(res, pow2(8*i)), pow2(8)))
+		}
+		en.noteWrite(st, dst, pos)
+		en.store(st, dst, AggV{C: &ArrCell{es}})
+		f.env[x] = nil
+		en.externCalls["golang.org/x/crypto/curve25519.ScalarMult (assumed = RFC 7748 X25519, writes only dst)"] = true
+		return nil, true
+	}
+	if strings.HasPrefix(name, "crypto/sha512.") || strings.HasPrefix(name, "fmt.") {
+		fail("unmodelled library call %s at %s", name, pos)
+	}
 	return nil, false
 }
 
-func (en *Engine) execInvoke(st *State, f *Frame, x *ssa.Call, recv Value, m *types.Func, args []Value, pos string) []*State {
-	fail("interface method call %s unsupported at %s", m.Name(), pos)
-	return nil
+// readFull models io.ReadFull(r, buf): either the buffer is filled with arbitrary bytes, or an error is returned.
+func (en *Engine) readFull(st *State, f *Frame, x *ssa.Call, args []Value, pos string) []*State {
+	r, ok := args[0].(IfaceV)
+	if !ok {
+		fail("io.ReadFull reader is %T", args[0])
+	}
+	buf := args[1].(SliceV)
+	if r.Sym == nil && r.Dyn == nil {
+		en.require(st, "nil", False(), "io.ReadFull on nil reader", pos)
+		st.done, st.infeasible = true, true
+		return nil
+	}
+	if r.Sym != nil && r.Dyn == nil {
+		en.require(st, "nil", Le(ConstI(1), r.Sym), "io.ReadFull on a possibly nil reader", pos)
+	}
+	en.flushSide(st)
+	st.entropyReads = append(st.entropyReads, en.sliceLen(buf))
+	errSt := st.clone()
+	// success: buffer filled
+	if buf.R != nil {
+		en.noteWrite(st, PtrV{R: buf.R, Path: buf.Path}, pos)
+		en.havocSlice(st, buf)
+	}
+	f.env[x] = TupleV{en.sliceLen(buf), IfaceV{}}
+	// failure: error returned (buffer contents arbitrary as well)
+	ef := errSt.top()
+	if buf.R != nil {
+		en.havocSlice(errSt, buf)
+	}
+	en.regionSeq++
+	n := FreshVar("readfull.n", SInt)
+	errSt.assume(Le(ConstI(0), n))
+	errSt.assume(Lt(n, en.sliceLen(buf)))
+	ef.env[x] = TupleV{n, IfaceV{Dyn: types.Universe.Lookup("error").Type(), V: OpaqueV{What: "reader error"}, Sym: ConstI(int64(1000000 + en.regionSeq))}}
+	errSt.trace = append(errSt.trace, pos+": entropy source fails")
+	en.externCalls["io.ReadFull on the caller's reader (modelled: fills the buffer with arbitrary bytes or fails)"] = true
+	return []*State{errSt}
 }
 
-func (en *Engine) symTypeAssert(st *State, f *Frame, x *ssa.TypeAssert, iv IfaceV) []*State {
-	fail("type assertion on symbolic interface unsupported")
-	return nil
+// slices of slices (VerifyBatch parameters) are modelled lazily: element i is a slice over
+// its own symbolic array arr(i) with length len(i).
+type LazySlices struct {
+	Name string
+	Elem types.Type // element slice type
 }
 
-func (en *Engine) bytesTerm(st *State, mem map[*Region]Cell, v Value) Value {
-	fail("bytesOf unsupported")
-	return nil
-}
-
-func (en *Engine) makeParamAPI(st *State, name string, t types.Type, facts *[]*Term) Value {
-	fail("unsupported parameter type %s for %s", t, name)
-	return nil
+func (en *Engine) makeSliceOfSlices(st *State, name string, t types.Type, u *types.Slice, facts *[]*Term) Value {
+	inner, ok := u.Elem().Underlying().(*types.Slice)
+	if !ok {
+		fail("unsupported slice element type %s", u.Elem())
+	}
+	if _, isB := inner.Elem().Underlying().(*types.Basic); !isB {
+		fail("unsupported nested slice type %s", t)
+	}
+	r := en.newRegion(name, t, "param")
+	ln := Var(name+".len", SInt)
+	cp := Var(name+".cap", SInt)
+	*facts = append(*facts, Le(ConstI(0), ln), Le(ln, cp), Le(cp, Const(pow2(wordBits-2))))
+	st.mem[r] = &LazySlices{Name: name, Elem: inner.Elem()}
+	return SliceV{R: r, Off: ConstI(0), Len: ln, Cap: cp, Elem: u.Elem()}
 }
